@@ -175,7 +175,7 @@ def string_summaries(I, summ):
             if cur.obj in st.mem.objs:
                 _smear(I, st, Ptr(cur.obj, st.forced.get(('write_str-base', cur.obj), 0)))
         return None
-    summ['write_str'] = write_str
+    # (no summary by name: whichever library function is handed a word / separator token is summarised as the phrase writer by writer_generic below)
 
     def writer_generic(I, st, args, inst):
         """any function of the library that is handed a word / separator token: it appends that string to the phrase buffer among its arguments"""
@@ -208,6 +208,9 @@ def string_summaries(I, summ):
             if ftys and all(t_.endswith('*') for t_ in ftys) and bufs:
                 return Agg({(k,): Ptr(bufs[0].obj, BV([T(0)] * 64)) for k in range(len(ftys))})
             raise Unmodelled('phrase writer returning %s at %s' % (ty, inst.loc))
+        if ty.endswith('*'):
+            bufs = [p_ for p_ in ptrs if p_.obj in st.mem.objs]
+            if bufs: return Ptr(bufs[0].obj, BV([T(0)] * 64))       # the advanced cursor, returned by value
         if inst.d['bits']:
             I._npos = getattr(I, '_npos', 0) + 1
             r = I.V.bv('pos%d' % I._npos, inst.d['bits'])
